@@ -103,6 +103,10 @@ func (m *Machine) harnessAPI(fn *ssa.Function, a []Value) (Value, bool) {
 		return fromTerm(Concat(parts...)), true
 	case "vfRegister", "vfObserve":
 		return nil, true
+	case "vfEmitted":
+		return m.vfEmitted(fn, a[0]), true
+	case "vfRuntimeHas":
+		return m.runtimeHas(m.constName(a[0]), a[1]), true
 	case "vfAny":
 		return m.vfAny(m.constName(a[0]), int(a[1].(int64))), true
 	case "vfIsSymbolicRun":
@@ -286,6 +290,8 @@ func (m *Machine) concreteAPI(fn *ssa.Function, a []Value) (Value, bool) {
 		return nil, true
 	case "vfIsSymbolicRun":
 		return false, true
+	case "vfEmitted":
+		return m.vfEmitted(fn, a[0]), true
 	}
 	return nil, false
 }
@@ -344,4 +350,52 @@ func (m *Machine) concreteAny(name string, depth int) Value {
 	}
 	tt := m.pkgType("time", "Time")
 	return Iface{T: tt, V: zero(tt)}
+}
+
+// runtimeHas: does the pinned runtime module's container package give type
+// `typ` a method (or, for "pkg", export a function / type) called name? The
+// name may be symbolic only if it is concrete on this path.
+func (m *Machine) runtimeHas(typ string, name Value) Value {
+	n, ok := forceLazy(name).(string)
+	p := m.Prog.ImportedPackage(helpers + "container")
+	if !ok && p != nil && typ != "pkg" {
+		// symbolic name: a disjunction over the method set
+		var alts []*Term
+		if o := p.Pkg.Scope().Lookup(typ); o != nil {
+			seen := map[string]bool{}
+			for _, t := range []types.Type{o.Type(), types.NewPointer(o.Type())} {
+				ms := types.NewMethodSet(t)
+				for i := 0; i < ms.Len(); i++ {
+					if f := ms.At(i).Obj(); f.Exported() && !seen[f.Name()] {
+						seen[f.Name()] = true
+						alts = append(alts, Eq(toTerm(forceLazy(name)), StrT(f.Name())))
+					}
+				}
+			}
+		}
+		return fromTerm(Or(alts...))
+	}
+	if !ok {
+		unsupported("vfRuntimeHas: the API name must be concrete on this path, got %s", describe(name))
+	}
+	if p == nil {
+		unsupported("runtime container package not loaded")
+	}
+	if typ == "pkg" {
+		o := p.Pkg.Scope().Lookup(n)
+		return o != nil && o.Exported()
+	}
+	o := p.Pkg.Scope().Lookup(typ)
+	if o == nil {
+		return false
+	}
+	for _, t := range []types.Type{o.Type(), types.NewPointer(o.Type())} {
+		ms := types.NewMethodSet(t)
+		for i := 0; i < ms.Len(); i++ {
+			if ms.At(i).Obj().Name() == n && ms.At(i).Obj().Exported() {
+				return true
+			}
+		}
+	}
+	return false
 }
